@@ -105,7 +105,10 @@ mutual
     | .tdelta a, .tdelta b => .ok (a == b)
     | .cdelta a, .cdelta b => .ok (a == b)
     | .fdt a, .fdt b => .ok (a == b)
+    | .ftd a, .ftd b => .ok (a == b)
     | .nat, .nat => .ok true                              -- `x is y`
+    | .sub c xs, .sub d ys => if c ≠ d then .ok false else seqBranch xs.length ys.length (zipR xs ys)   -- :72 `type(x) == type(y) and ...`
+    | .index i, .index j => .ok (idxEq i j)               -- pd.Index branch: `eq(list(x), list(y))` on lists of labels (scalars), as for the axes of a Series
     | .list xs, .list ys => seqBranch xs.length ys.length (zipR xs ys)              -- :72
     | .tuple xs, .tuple ys => seqBranch xs.length ys.length (zipR xs ys)            -- :72
     | .arr s xs, .arr t ys => arrBranch s t (zipR xs ys)                            -- :74
